@@ -41,11 +41,18 @@ P == CASE Profile = "c04q" ->
             [slots |-> <<<<"inc", "h.h">>, <<"src", "h.h">>>>,
              bodies |-> {"guard", "once", "onceT", "def", "selfinc"}, stmts |-> {"qh", "undefG", "undefM"}, maxmain |-> 3, nmains |-> 1,
              idirs |-> {<<Iu("inc")>>}, forced |-> {<<>>}, nents |-> 1, plats |-> <<"p1">>]
+      [] Profile = "c04s" ->
+            \* include names with directory components: a header in a subdirectory of an include directory
+            \* ("sub/k.h") and one named through a directory link followed by ".." ("tosub/../j.h", where
+            \* inc/tosub -> src/sub: the file is physically src/j.h, lexically it would be inc/j.h)
+            [slots |-> <<<<"inc", "sub/k.h">>, <<"inc", "tosub/../j.h">>, <<"inc", "h.h">>>>,
+             bodies |-> {"def", "onceT", "guard"}, stmts |-> {"qk", "ak", "qj", "aj", "qh"}, maxmain |-> 2, nmains |-> 1,
+             idirs |-> {<<Iu("inc")>>, <<Is("inc")>>}, forced |-> {<<>>}, nents |-> 1, plats |-> <<"p1">>]
       [] Profile = "sim" ->
             [slots |-> <<<<"src", "h.h">>, <<"inc", "h.h">>, <<"sys", "h.h">>, <<"ext", "h.h">>,
-                         <<"src", "g.h">>, <<"inc", "g.h">>, <<"ext", "g.h">>>>,
+                         <<"src", "g.h">>, <<"inc", "g.h">>, <<"ext", "g.h">>, <<"inc", "sub/k.h">>, <<"inc", "tosub/../j.h">>>>,
              bodies |-> {"plain", "def", "guard", "once", "onceT", "selfinc", "testX", "undefX", "defX", "incq", "inca", "gincq", "indX"},
-             stmts |-> {"qh", "ah", "qg", "ag", "defX", "undefX", "testX", "valX", "mq", "ma", "dead", "undefM", "undefG", "inch", "indX"},
+             stmts |-> {"qh", "ah", "qg", "ag", "defX", "undefX", "testX", "valX", "mq", "ma", "dead", "undefM", "undefG", "inch", "indX", "qk", "ak", "qj", "aj"},
              maxmain |-> 4, nmains |-> 2,
              idirs |-> {<<Iu("inc"), Is("sys")>>, <<Iu("inc")>>, <<Is("sys"), Iu("inc")>>, <<Iu("sys"), Iu("inc")>>, <<>>,
                         <<Iu("ext"), Iu("inc")>>, <<Iu("inc"), Iu("ext"), Is("sys")>>, <<Iu("src"), Iu("inc")>>, <<Iu("inc"), Iu("src")>>},
@@ -146,6 +153,10 @@ Stmt(s) ==
   CASE s = "qh" -> <<Inc("q", "h.h"), C>>
     [] s = "ah" -> <<Inc("a", "h.h"), C>>
     [] s = "qg" -> <<Inc("q", "g.h"), C>>
+    [] s = "qk" -> <<Inc("q", "sub/k.h"), C>>
+    [] s = "ak" -> <<Inc("a", "sub/k.h"), C>>
+    [] s = "qj" -> <<Inc("q", "tosub/../j.h"), C>>
+    [] s = "aj" -> <<Inc("a", "tosub/../j.h"), C>>
     [] s = "ag" -> <<Inc("a", "g.h"), C>>
     [] s = "defX" -> <<Def("X", "1"), C>>
     [] s = "undefX" -> <<[k |-> "undef", m |-> "X"], C>>
@@ -190,10 +201,15 @@ Init == stage = "hdr" /\ si = 1 /\ files = Empty /\ cur = <<C>> /\ ns = 0 /\ ent
 
 SkipSlot == /\ stage = "hdr" /\ si <= Len(Slots)
             /\ si' = si + 1 /\ UNCHANGED <<stage, files, cur, ns, ents>>
+\* headers whose NAME has directory components live (physically) in another directory than the one the
+\* reference files them under, so they must not contain quote includes of their own
+Including == {"incq", "inca", "gincq", "selfinc", "miss"}
+HasDirPart(n) == \E i \in 1..Len(n) : SubSeq(n, i, i) = "/"
 AddHeader == /\ stage = "hdr" /\ si <= Len(Slots)
              /\ \E b \in Bodies :
                   LET d == Slots[si][1] n == Slots[si][2] IN
-                  files' = files @@ (Fid(d, n) :> [dir |-> d, name |-> n, items |-> Body(b, d, n)])
+                  /\ (HasDirPart(n) => b \notin Including)
+                  /\ files' = files @@ (Fid(d, n) :> [dir |-> d, name |-> n, items |-> Body(b, d, n)])
              /\ si' = si + 1 /\ UNCHANGED <<stage, cur, ns, ents>>
 HdrDone == /\ stage = "hdr" /\ si > Len(Slots)
            /\ stage' = "main" /\ si' = 1 /\ UNCHANGED <<files, cur, ns, ents>>
